@@ -772,7 +772,7 @@ func main() {
 
 	selfMismatch := 0
 	run.ShardSize = 300
-	n := run.Count(1800, 60000)
+	n := run.Count(2400, 60000)
 	big := run.Tier == "thorough"
 	for i := 0; i < n; i++ {
 		r := rng.Fork(uint64(i))
@@ -870,6 +870,26 @@ func main() {
 		run.Tally("stream:" + stream)
 		run.Tally(fmt.Sprintf("flag:%v/l4:%s/%s", on, l4n, obs[0].Kind))
 		run.Tally("underlay:" + ulk + "/" + obs[0].Kind)
+		if abs.OK && abs.L4.Kind != 0 {
+			dk := "other"
+			switch {
+			case abs.DstT == 0:
+				dk = "ipv4"
+			case abs.DstT == 4:
+				dk = "svc"
+			case abs.DstT == 3:
+				dk = "ipv6"
+				if a, ok := netip.AddrFromSlice(abs.DstRaw); ok && a.Is4In6() {
+					dk = "ipv6-mapped"
+				}
+			}
+			run.Tally("dst:" + dk + "/" + l4n + "/" + obs[0].Kind)
+			if abs.L4.Kind == 2 {
+				if _, isErr := errHdrLen[abs.L4.Ty]; isErr {
+					run.Tally(fmt.Sprintf("quote:%s/%s", []string{"none-or-bad", "udp", "scmp"}[abs.L4.Q.Kind], obs[0].Kind))
+				}
+			}
+		}
 		if obs[0].Term != obs[1].Term {
 			run.Tally("fresh<>long-lived")
 		}
